@@ -143,6 +143,14 @@ fn c03_history<K: Kt>(a: &Args, h: &History, ctx: &mut Ctx, rng: &mut Rng) -> Op
     let mut primary_dirty = false; // updates since the last flush or sync (demanded of flush)
     let mut primary_unsynced = false; // updates since the last sync_all/sync_data: a flush in between does not clear it
     let mut bits = Rng::new(11);
+    let mut second = match K::open(&db, "m", h.cfg.params()) {
+        Ok(m) => m,
+        Err(e) => return Some(Stop::Harness(format!("second handle: {e}"))),
+    };
+    {
+        use abyssiniandb::DbXxxBase;
+        let _ = second.flush();
+    }
     hooks::record_io_events(true);
     let _ = hooks::take_io_events();
     for (i, op) in h.ops.iter().enumerate() {
@@ -195,7 +203,31 @@ fn c03_history<K: Kt>(a: &Args, h: &History, ctx: &mut Ctx, rng: &mut Rng) -> Op
                 }
             }
         }
-        if let Err(f) = s.apply(i, op, &h.keys, &mon, ctx, bits.next()) {
+        // one map-level sync in four is issued through a second handle of the map (a lookup of its own that flushed once
+        // while the map was clean; all updates go through the first handle), one in four is preceded by a
+        // read_fill_buffer
+        let through_second = op.is_sync() && !matches!(op, Op::DbSyncAll | Op::DbSyncData) && bits.chance(1, 4);
+        if op.is_sync() && bits.chance(1, 4) {
+            if let Err(f) = s.apply(i, &Op::ReadFill, &h.keys, &mon, ctx, bits.next()) {
+                hooks::record_io_events(false);
+                return Some(ctx.classify(f));
+            }
+            let _ = hooks::take_io_events();
+            ctx.count("sync_after_read_fill_buffer", 1);
+        }
+        if through_second {
+            use abyssiniandb::DbXxxBase;
+            let r = crate::session::guarded(crate::session::STEP_BUDGET_BASE, || match op {
+                Op::Flush => second.flush(),
+                Op::SyncAll => second.sync_all(),
+                _ => second.sync_data(),
+            });
+            ctx.count("sync_through_second_handle", 1);
+            if !matches!(r, Guard::Ok(Ok(()))) {
+                hooks::record_io_events(false);
+                return Some(ctx.classify(finding(&["C01"], "result", i, format!("{} through a second handle failed", op.kind_name()))));
+            }
+        } else if let Err(f) = s.apply(i, op, &h.keys, &mon, ctx, bits.next()) {
             hooks::record_io_events(false);
             return Some(ctx.classify(f));
         }
